@@ -24,7 +24,9 @@ Fixpoint get (m : fmap) (k : Z) : option Z :=
 Fixpoint list_min (d : Z) (l : list Z) : Z :=
   match l with [] => d | x :: t => list_min (Z.min d x) t end.
 
-Definition MAXIDX : Z := FAULTLOG_MAX_LOG_IDX.   (* regenerated from the source: 0x3E *)
+Definition MAXIDX : Z := FAULTLOG_MAX_LOG_IDX.   (* regenerated from the source *)
+(* the property: the controller's log is 64 deep, slots 00..3F -- NOT taken from the source *)
+Definition LOG_DEPTH : Z := 64.
 
 Definition insert_into_map (m : fmap) (idx : Z) (dtm : option Z) : fmap :=
   let part1 := filter (fun kv => (fst kv <? idx) &&
